@@ -5,8 +5,10 @@ child_before, nodes_between, text_between, range_has_mark with lean/PM/Resolve.l
 (pair) of generated documents.
 Search: the same quantities recomputed from the flat token sequence of to_json().
 """
+from prosemirror.model import Fragment
+
 from .. import core, gen, schemas
-from ..codec import doc_tokens, from_units
+from ..codec import doc_tokens, from_units, units
 from ..core import outcome
 from . import c02_frag
 
@@ -61,6 +63,105 @@ def impl_resolve(info, d, pos, other):
     }
 
 
+class Root:
+    """a node whose positions are queried (`node.resolve(pos)` …): the document of a case — or a node related to it — with
+    its flat token picture and its encoding for the model"""
+
+    def __init__(self, info, d, label="doc"):
+        self.d, self.label = d, label
+        self.toks = doc_tokens(d)
+        self.size = d.content.size
+        self.dj = info.node(d)
+        self.json = d.to_json()
+        self.aligned = sorted(gen.aligned_positions(d))
+        self.sizes = {}      # own_size memo (the nodes stay alive with d)
+
+
+def own_size(n, memo):
+    """size of a node counted from its own text / children (not the library's node_size)"""
+    k = id(n)
+    if k not in memo:
+        memo[k] = len(units(n.text)) if n.is_text else 1 if n.is_leaf else 2 + sum(own_size(c, memo) for c in n.content.content)
+    return memo[k]
+
+
+def expected_ancestors(d, pos, memo):
+    """the nodes containing position pos, outermost first, found by walking the tree (a child contains the position when
+    the position lies strictly inside it)"""
+    chain, node, start = [d], d, 0
+    while True:
+        cur, nxt = start, None
+        for c in node.content.content:
+            sz = own_size(c, memo)
+            if not c.is_text and not c.is_leaf and cur < pos < cur + sz:
+                nxt = (c, cur + 1)
+                break
+            cur += sz
+            if cur >= pos:
+                break
+        if nxt is None:
+            return chain
+        node, start = nxt
+        chain.append(node)
+
+
+SAME_FRAGMENT = ("copy", "retyped", "other-attrs", "marked", "doc-attr-step")
+
+
+def related_roots(rng, info, d):
+    """nodes related to d the way the library's own operations relate nodes: the same content Fragment *object* under
+    another root (copy, another type / other attributes as the markup and doc-attribute steps build it, node marks), results
+    of steps and cuts (children shared by identity), the same for a node inside d, and empty nodes (all of them hold
+    `Fragment.empty`).  Every returned node passes check()."""
+    schema = info.schema
+    out = []
+
+    def add(label, fn):
+        try:
+            n = fn()
+            if n is None:
+                return
+            n.check()
+            info.node(n)
+        except Exception:  # noqa: BLE001  (not a valid relative of this schema: skipped)
+            return
+        out.append((label, n))
+
+    def same_fragment(prefix, n, root):
+        add(prefix + "copy", lambda: n.copy(n.content))
+        fits = [t for t in schema.nodes.values() if not t.is_leaf and not t.is_text and t.valid_content(n.content)
+                and (root or (t.is_inline == n.type.is_inline))]
+        for t in rng.sample(fits, min(2, len(fits))):
+            add(prefix + ("retyped" if t is not n.type else "other-attrs"), lambda t=t: t.create(gen.gen_attrs(rng, t), n.content, n.marks))
+        if n.type.attrs:
+            add(prefix + "other-attrs", lambda: n.type.create(gen.gen_attrs(rng, n.type), n.content, n.marks))
+        m = gen.gen_mark(rng, schema)
+        if m is not None:
+            add(prefix + "marked", lambda: n.mark(m.add_to_set(n.marks)))
+    same_fragment("", d, True)
+    names = list(d.type.attrs.keys())
+    if names:
+        from prosemirror.transform.doc_attr_step import DocAttrStep
+        name = rng.choice(names)
+        add("doc-attr-step", lambda: DocAttrStep(name, gen.gen_attr_value(rng, name)).apply(d).doc)
+    for _ in range(2):
+        add("step-result", lambda: gen.gen_step(rng, info, d, [d]).apply(d).doc)
+    al = gen.aligned_positions(d)
+    a, b = sorted((rng.choice(al), rng.choice(al)))
+    add("cut", lambda: d.cut(a, b))
+    add("slice-content", lambda: d.type.create(d.attrs, d.slice(a, b).content, d.marks))
+    inner = []
+    d.descendants(lambda n, p, par, i: inner.append(n) if not n.is_text and not n.is_leaf else None)
+    if inner:
+        n = rng.choice(inner)
+        add("inner:self", lambda: n)
+        same_fragment("inner:", n, False)
+    empt = [t for t in schema.nodes.values() if not t.is_leaf and not t.is_text and t.valid_content(Fragment.empty)]
+    for t in rng.sample(empt, min(3, len(empt))):
+        add("empty", lambda t=t: t.create(gen.gen_attrs(rng, t)))
+    return out
+
+
 def run(ctx):
     core.lean_phase(ctx)
     rng = ctx.rng
@@ -90,88 +191,130 @@ def run(ctx):
             info = schemas.inline_content_schema()     # an inline node with content, atoms with content
         schema = info.schema
         ctx.driver.add_schema(info)
-        for _ in range(ctx.budget(3, 8)):
-            if ctx.time_left() < 0:
-                break
-            d = gen.gen_doc(rng, schema, budget=rng.choice([6, 12, 20]))
-            if rng.random() < 0.4:
-                d = gen.gen_marky_doc(rng, schema) or d
-            toks = doc_tokens(d)
-            size = d.content.size
-            dj = info.node(d)
-            # the Fragment-object accessors on the content of this document's nodes (negative indices, both roundings of
-            # find_index, positions outside, a wrong stored size)
-            c02_frag.run_accessors(ctx, info, [d], reqs, metas)
-            aligned = set(gen.aligned_positions(d))
-            for pos in range(size + 1):
-                if pos not in aligned:
-                    continue
-                other = rng.choice(sorted(aligned))
-                replay = {"schema": info.name, "doc": d.to_json(), "pos": pos, "other": other}
-                ctx.case(["resolve", info.name, d.to_json(), pos, other], sample={"op": "resolve+accessors", "schema": info.name, "doc": str(d)[:160], "pos": pos})
-                st, val = outcome(lambda: impl_resolve(info, d, pos, other))
-                if st != "ok":
-                    ctx.violation("resolve-raises", f"resolve/accessor raised {val} at an in-range position", replay)
-                    continue
-                # ---- oracle from tokens
-                anc = ancestors_from_tokens(toks, pos)
-                exp_starts = [0] + [a + 1 for a in anc]
-                exp_ends = [size] + [match_close(toks, a) for a in anc]
-                bad = None
-                if val["depth"] != len(anc):
-                    bad = f"depth {val['depth']} != unmatched opens {len(anc)}"
-                elif val["starts"] != exp_starts or val["ends"] != exp_ends:
-                    bad = f"start/end of ancestors {val['starts']}/{val['ends']} != {exp_starts}/{exp_ends}"
-                elif val["parentOffset"] != pos - exp_starts[-1]:
-                    bad = "parent_offset wrong"
-                elif val["befores"][1:len(anc) + 1] != anc or val["afters"][1:len(anc) + 1] != [e + 1 for e in exp_ends[1:]]:
-                    bad = "before/after of ancestors wrong"
-                else:
-                    # text offset: distance back to the start of the run of units with identical marks
-                    k = pos
-                    if 0 < pos < len(toks) and toks[pos][0] == "u" and toks[pos - 1][0] == "u" and toks[pos - 1][2] == toks[pos][2]:
-                        while k > 0 and toks[k - 1][0] == "u" and toks[k - 1][2] == toks[pos][2]:
-                            k -= 1
-                        if val["textOffset"] != pos - k:
-                            bad = f"text_offset {val['textOffset']} != {pos - k}"
-                    elif val["textOffset"] != 0:
-                        bad = f"text_offset {val['textOffset']} != 0"
-                if bad is None:
-                    # marks(): documented rule from the neighbouring tokens at this level
-                    exp_marks = expected_marks(schema, toks, pos, anc, exp_ends[-1])
-                    got_marks = [(schema_mark_name(info, m), ) for m in val["marks"]]
-                    if exp_marks is not None and [m[0] for m in got_marks] != exp_marks:
-                        bad = f"marks() {[m[0] for m in got_marks]} != documented {exp_marks}"
-                if bad:
-                    ctx.violation("resolve-accessor", "accessor disagrees with the flat token picture: " + bad, replay)
-                reqs.append({"op": "resolve", "s": info.lean_id, "doc": dj, "pos": pos, "other": other})
-                metas.append(("resolve", replay, val))
-                # ---- node_at / child_after / child_before
-                st2, na = outcome(lambda: d.node_at(pos))
-                if st2 == "ok":
-                    reqs.append({"op": "nodeAt", "doc": dj, "pos": pos})
-                    metas.append(("nodeAt", replay, info.node(na) if na is not None else None))
-                    exp_has = pos < size and toks[pos][0] != "cl"
-                    if (na is not None) != exp_has:
-                        ctx.violation("node_at", "node_at does not report the node starting at / covering the position", replay)
-                else:
-                    ctx.violation("node_at-raises", f"node_at raised {na}", replay)
 
-                def cab():
-                    a, b = d.child_after(pos), d.child_before(pos)
-                    enc = lambda x: [info.node(x["node"]) if x["node"] is not None else None, x["index"], x["offset"]]
-                    return [enc(a), enc(b)]
-                st3, ab = outcome(cab)
-                if st3 == "ok":
-                    reqs.append({"op": "childAB", "doc": dj, "pos": pos})
-                    metas.append(("childAB", replay, ab))
-                elif pos <= size:
-                    ctx.violation("child_after-raises", f"child_after/before raised {ab}", replay)
-            # ---- whole-node conveniences: text_content and descendants are text_between / nodes_between over everything
+        # ------------------------------------------------------------------------------------------------------------
+        def check_pos(R, pos, other, related=None):
+            """resolve + every accessor at one position of root R: token oracle and model tie"""
+            d, toks, size, dj = R.d, R.toks, R.size, R.dj
+            replay = {"schema": info.name, "doc": R.json, "pos": pos, "other": other}
+            if related is not None:
+                replay["root"] = R.label
+                replay["queried_before"] = related
+                ctx.case(["resolve-related", info.name, R.json, pos, other], sample=None)
+            else:
+                ctx.case(["resolve", info.name, R.json, pos, other], sample={"op": "resolve+accessors", "schema": info.name, "doc": str(d)[:160], "pos": pos})
+            st, val = outcome(lambda: impl_resolve(info, d, pos, other))
+            if st != "ok":
+                ctx.violation("resolve-raises", f"resolve/accessor raised {val} at an in-range position", replay)
+                return
+            # ---- oracle from tokens
+            anc = ancestors_from_tokens(toks, pos)
+            exp_starts = [0] + [a + 1 for a in anc]
+            exp_ends = [size] + [match_close(toks, a) for a in anc]
+            bad = None
+            if val["depth"] != len(anc):
+                bad = f"depth {val['depth']} != unmatched opens {len(anc)}"
+            elif val["starts"] != exp_starts or val["ends"] != exp_ends:
+                bad = f"start/end of ancestors {val['starts']}/{val['ends']} != {exp_starts}/{exp_ends}"
+            elif val["parentOffset"] != pos - exp_starts[-1]:
+                bad = "parent_offset wrong"
+            elif val["befores"][1:len(anc) + 1] != anc or val["afters"][1:len(anc) + 1] != [e + 1 for e in exp_ends[1:]]:
+                bad = "before/after of ancestors wrong"
+            else:
+                # text offset: distance back to the start of the run of units with identical marks
+                k = pos
+                if 0 < pos < len(toks) and toks[pos][0] == "u" and toks[pos - 1][0] == "u" and toks[pos - 1][2] == toks[pos][2]:
+                    while k > 0 and toks[k - 1][0] == "u" and toks[k - 1][2] == toks[pos][2]:
+                        k -= 1
+                    if val["textOffset"] != pos - k:
+                        bad = f"text_offset {val['textOffset']} != {pos - k}"
+                elif val["textOffset"] != 0:
+                    bad = f"text_offset {val['textOffset']} != 0"
+            if bad is None:
+                # marks(): documented rule from the neighbouring tokens at this level
+                exp_marks = expected_marks(schema, toks, pos, anc, exp_ends[-1])
+                got_marks = [(schema_mark_name(info, m), ) for m in val["marks"]]
+                if exp_marks is not None and [m[0] for m in got_marks] != exp_marks:
+                    bad = f"marks() {[m[0] for m in got_marks]} != documented {exp_marks}"
+            if bad:
+                ctx.violation("resolve-accessor", "accessor disagrees with the flat token picture: " + bad, replay)
+            # ---- the ancestors themselves: node(k), doc, parent are the nodes of *this* root that contain the position
+            # (compared by value; the tree walk gives the expected chain)
+            def ancestors():
+                r, r2 = d.resolve(pos), d.resolve_no_cache(pos)
+                return [r.node(k) for k in range(r.depth + 1)], r.doc, r.parent, (r.pos, r.path, r.parent_offset), (r2.pos, r2.path, r2.parent_offset)
+            sta, got_anc = outcome(ancestors)
+            ctx.count("ancestor_checks")
+            enc_anc = None
+            if sta != "ok":
+                ctx.violation("resolve-raises", f"node(depth)/doc/parent raised {got_anc}", replay)
+            else:
+                nodes, rdoc, rparent, with_cache, without_cache = got_anc
+                exp_chain = expected_ancestors(d, pos, R.sizes)
+                def same(a, b):
+                    if a is b:
+                        return True
+                    try:
+                        return info.node(a) == info.node(b)
+                    except Exception:  # noqa: BLE001  (a node of another schema cannot even be encoded: not the same)
+                        return False
+                badn = None
+                if len(nodes) != len(exp_chain):
+                    badn = f"{len(nodes)} ancestors, the tree has {len(exp_chain)} around the position"
+                else:
+                    for k, (g, e) in enumerate(zip(nodes, exp_chain)):
+                        if not same(g, e):
+                            badn = f"node({k}) is {str(g)[:80]} (attrs {dict(g.attrs)}, marks {[m.type.name for m in g.marks]}), the ancestor at depth {k} " \
+                                   f"in the queried root is {str(e)[:80]} (attrs {dict(e.attrs)}, marks {[m.type.name for m in e.marks]})"
+                            break
+                    if badn is None and not same(rdoc, d):
+                        badn = "doc is not the queried root"
+                    if badn is None and not same(rparent, exp_chain[-1]):
+                        badn = "parent is not the innermost ancestor"
+                    if badn is None and not (with_cache[0] == without_cache[0] and with_cache[2] == without_cache[2] and len(with_cache[1]) == len(without_cache[1])
+                                             and all(a == b if isinstance(a, int) or isinstance(b, int) else same(a, b) for a, b in zip(with_cache[1], without_cache[1]))):
+                        badn = "resolve() and resolve_no_cache() give different positions"
+                if badn:
+                    ctx.violation("resolve-ancestors", "the ancestors a resolved position reports are not the nodes of the queried document around it: " + badn, replay)
+                try:
+                    enc_anc = [dj if n is d else info.node(n) for n in nodes]
+                except Exception:  # noqa: BLE001  (nodes of another schema: reported above, nothing to send)
+                    enc_anc = None
+            reqs.append({"op": "resolve", "s": info.lean_id, "doc": dj, "pos": pos, "other": other})
+            metas.append(("resolve", replay, val))
+            if enc_anc is not None and (related is not None or rng.random() < 0.25):
+                reqs.append({"op": "resolveNodes", "doc": dj, "pos": pos})
+                metas.append(("resolveNodes", replay, enc_anc))
+            # ---- node_at / child_after / child_before
+            st2, na = outcome(lambda: d.node_at(pos))
+            if st2 == "ok":
+                reqs.append({"op": "nodeAt", "doc": dj, "pos": pos})
+                metas.append(("nodeAt", replay, info.node(na) if na is not None else None))
+                exp_has = pos < size and toks[pos][0] != "cl"
+                if (na is not None) != exp_has:
+                    ctx.violation("node_at", "node_at does not report the node starting at / covering the position", replay)
+            else:
+                ctx.violation("node_at-raises", f"node_at raised {na}", replay)
+
+            def cab():
+                a, b = d.child_after(pos), d.child_before(pos)
+                enc = lambda x: [info.node(x["node"]) if x["node"] is not None else None, x["index"], x["offset"]]
+                return [enc(a), enc(b)]
+            st3, ab = outcome(cab)
+            if st3 == "ok":
+                reqs.append({"op": "childAB", "doc": dj, "pos": pos})
+                metas.append(("childAB", replay, ab))
+            elif pos <= size:
+                ctx.violation("child_after-raises", f"child_after/before raised {ab}", replay)
+
+        # ------------------------------------------------------------------------------------------------------------
+        def check_whole(R):
+            """whole-node conveniences: text_content and descendants are text_between / nodes_between over everything"""
+            d, toks, size = R.d, R.toks, R.size
             stt, tc = outcome(lambda: d.text_content)
             if stt != "ok" or tc != from_units([x[1] for x in toks if x[0] == "u"]):
                 ctx.violation("text_content", "text_content is not the text units of the document in order",
-                              {"schema": info.name, "doc": d.to_json(), "got": str(tc)})
+                              {"schema": info.name, "doc": R.json, "got": str(tc)})
 
             def desc():
                 a1, a2 = [], []
@@ -183,8 +326,199 @@ def run(ctx):
                 1 for k, x in enumerate(toks) if x[0] == "u" and (k == 0 or toks[k - 1][0] != "u" or toks[k - 1][2] != x[2]))
             if std != "ok" or dd_[0] != dd_[1] or len(dd_[0]) != n_open:
                 ctx.violation("descendants", "descendants does not visit every node of the document once, like nodes_between(0, size)",
-                              {"schema": info.name, "doc": d.to_json(), "got": str(dd_)[:300], "nodes": n_open})
+                              {"schema": info.name, "doc": R.json, "got": str(dd_)[:300], "nodes": n_open})
             ctx.count("whole_node_calls")
+
+        # ------------------------------------------------------------------------------------------------------------
+        def check_range(R, f, t):
+            """nodes_between / text_between / range_has_mark / block_range / marks_across over one range of root R"""
+            d, toks, size, dj = R.d, R.toks, R.size, R.dj
+            replay = {"schema": info.name, "doc": R.json, "from": f, "to": t}
+            if R.label != "doc":
+                replay["root"] = R.label
+            ctx.case(["between", info.name, R.json, f, t], nontrivial=f < t)
+
+            def nb():
+                acc = []
+                d.nodes_between(f, t, lambda n, p, par, i: acc.append([n.node_size, p, i]) or True)
+                return acc
+            st, vis = outcome(nb)
+            st2, txt = outcome(lambda: d.text_between(f, t))
+            if st != "ok" or st2 != "ok":
+                ctx.violation("between-raises", f"nodes_between/text_between raised {vis if st != 'ok' else txt}", replay)
+                return
+            exp_txt = from_units([x[1] for x in toks[f:t] if x[0] == "u"])
+            if txt != exp_txt:
+                ctx.violation("text_between", "text_between does not return the text units inside the range",
+                              dict(replay, got=txt, expected=exp_txt))
+            # block range of the two positions, from the token picture: the deepest depth, starting at the depth of
+            # `from` (one less when its parent holds inline content or the two positions coincide), at which `to` still
+            # lies inside from's ancestor; the range runs from before from's child at that depth to after to's
+            anc_f, anc_t = ancestors_from_tokens(toks, f), ancestors_from_tokens(toks, t)
+
+            def parent_inline(anc_):
+                ty = schema.nodes[toks[anc_[-1]][1]] if anc_ else d.type
+                return ty.inline_content
+            d0 = len(anc_f) - (1 if parent_inline(anc_f) or f == t else 0)
+            exp_br = None
+            for dd in range(d0, -1, -1):
+                end_d = size if dd == 0 else match_close(toks, anc_f[dd - 1])
+                if t <= end_d:
+                    exp_br = [dd, f if dd == len(anc_f) else anc_f[dd], t if dd == len(anc_t) else match_close(toks, anc_t[dd]) + 1]
+                    break
+
+            def br():
+                x = d.resolve(f).block_range(d.resolve(t))
+                return None if x is None else [x.depth, x.start, x.end]
+            st5, got_br = outcome(br)
+            ctx.count("block_range_calls")
+            if st5 != "ok" or got_br != exp_br:
+                ctx.violation("block_range", "block_range disagrees with the token picture of the two positions",
+                              dict(replay, got=got_br if st5 == "ok" else str(got_br), expected=exp_br))
+            if st5 == "ok":
+                reqs.append({"op": "blockRange", "s": info.lean_id, "doc": dj, "from": f, "to": t})
+                metas.append(("blockRange", replay, got_br))
+            if st5 == "ok" and got_br is not None:
+                # the NodeRange's own accessors: start / end / start_index / end_index / parent, against the model
+                # (PM/ResolveExtra.lean nodeRangeInfo) and against the token picture (start_index = number of whole
+                # children of the ancestor before `start`, end_index likewise for `end`)
+                def nr():
+                    x = d.resolve(f).block_range(d.resolve(t))
+                    return [x.start, x.end, x.start_index, x.end_index, x.parent.child_count]
+                st6, got_nr = outcome(nr)
+                ctx.count("node_range_calls")
+                if st6 != "ok":
+                    ctx.violation("node_range-raises", f"a NodeRange accessor raised {got_nr}", replay)
+                else:
+                    reqs.append({"op": "nodeRange", "doc": dj, "from": f, "to": t, "depth": got_br[0]})
+                    metas.append(("nodeRange", replay, got_nr))
+                    dd = got_br[0]
+                    if dd > len(anc_f):
+                        return   # a depth the token picture does not have: reported as block_range above
+                    lo = 0 if dd == 0 else anc_f[dd - 1] + 1
+                    def whole_children_before(p):
+                        n, q = 0, lo
+                        while q < p:
+                            q = (match_close(toks, q) + 1) if toks[q][0] == "op" else q + 1
+                            if toks[q - 1][0] == "u":
+                                # a run of text units with equal marks is one child
+                                while q < p and toks[q][0] == "u" and toks[q][2] == toks[q - 1][2]:
+                                    q += 1
+                            n += 1
+                        return n if q == p else None
+                    e_si, e_ei = whole_children_before(got_br[1]), whole_children_before(got_br[2])
+                    if got_nr[:2] != got_br[1:] or (e_si is not None and got_nr[2] != e_si) or (e_ei is not None and got_nr[3] != e_ei):
+                        ctx.violation("node_range", "NodeRange start/end/start_index/end_index disagree with the token picture",
+                                      dict(replay, got=got_nr, expected=[got_br[1], got_br[2], e_si, e_ei]))
+            # marks_across: the marks of the node after `from` that continue across to `to` (non-inclusive marks only
+            # when the node after `to` carries them too)
+            def mac():
+                x = d.resolve(f).marks_across(d.resolve(t))
+                return None if x is None else [[m.type.name, m.attrs] for m in x]
+            st7, got_ma = outcome(mac)
+            ctx.count("marks_across_calls")
+            if st7 != "ok":
+                ctx.violation("marks_across-raises", f"marks_across raised {got_ma}", replay)
+            else:
+                reqs.append({"op": "marksAcross", "s": info.lean_id, "doc": dj, "from": f, "to": t})
+                metas.append(("marksAcross", replay, None if got_ma is None else info.marks(d.resolve(f).marks_across(d.resolve(t)))))
+                exp_ma = expected_marks_across(schema, d, toks, f, t, anc_f, anc_t, size)
+                if exp_ma != "skip" and (None if got_ma is None else [m[0] for m in got_ma]) != exp_ma:
+                    ctx.count("marks_across:checked")
+                    ctx.violation("marks_across", "marks_across disagrees with the documented rule read off the token picture",
+                                  dict(replay, got=got_ma, expected=exp_ma))
+                elif exp_ma != "skip":
+                    ctx.count("marks_across:checked")
+            # separators and leaf text (string and callable forms)
+            for sep, lt_impl, lt_ref in (("\n", "", ""), ("|", "*", "*"), ("\n\n", lambda n: "" if n.type.name.startswith("h") else "[" + n.type.name + "]",
+                                                                          lambda ty: "" if ty.startswith("h") else "[" + ty + "]"), ("", "#", "#")):
+                st4, txt2 = outcome(lambda: d.text_between(f, t, sep, lt_impl))
+                exp2 = ref_text_between(schema, R.json.get("content"), f, t, sep, lt_ref)
+                ctx.count("text_between_sep_calls")
+                if st4 == "ok" and isinstance(lt_impl, str):
+                    reqs.append({"op": "textBetweenSep", "s": info.lean_id, "doc": dj, "from": f, "to": t,
+                                 "sep": units(sep), "leaf": units(lt_impl)})
+                    metas.append(("textBetweenSep", dict(replay, separator=sep, leaf_text=lt_impl), units(txt2)))
+                if st4 != "ok" or txt2 != exp2:
+                    ctx.violation("text_between-separators", "text_between with a block separator / leaf text does not give the documented text",
+                                  dict(replay, separator=sep, leaf_text=lt_ref if isinstance(lt_ref, str) else "[type name], empty for h*",
+                                       got=txt2 if st4 == "ok" else str(txt2), expected=exp2))
+                    break
+            # visited nodes: exactly those whose token interval meets (from, to) [start < to and end > from], in document order
+            exp_vis = expected_visits(toks, f, t)
+            if [v[1] for v in vis] != exp_vis:
+                ctx.violation("nodes_between", "nodes_between visits other nodes/positions than the token picture says",
+                              dict(replay, got=[v[1] for v in vis], expected=exp_vis))
+            reqs.append({"op": "nodesBetween", "doc": dj, "from": f, "to": t})
+            metas.append(("nodesBetween", replay, [vis, units(txt)]))
+            m = gen.gen_mark(rng, schema)
+            if m is not None:
+                st3, has = outcome(lambda: d.range_has_mark(f, t, m))
+                if st3 == "ok":
+                    exp_has = f < t and any(mark_in(m, info, toks[p]) for p in exp_vis)
+                    if bool(has) != exp_has:
+                        ctx.violation("range_has_mark", "range_has_mark disagrees with the marks of the nodes in the range", replay)
+                    reqs.append({"op": "rangeHasMark", "doc": dj, "from": f, "to": t, "mark": info.mark(m)})
+                    metas.append(("rangeHasMark", replay, bool(has)))
+
+        # ------------------------------------------------------------------------------------------------------------
+        def related_queries(R0):
+            """a family of nodes related to the document (same content Fragment object, shared children, empty nodes)
+            queried alternately at the same positions — each answer must be about the node that was asked — then a third
+            of the queries once more in another order, and a range each"""
+            rel = related_roots(rng, info, R0.d)
+            same_frag = [x for x in rel if x[0] in SAME_FRAGMENT]
+            others = [x for x in rel if x[0] not in SAME_FRAGMENT and not x[0].startswith("inner") and x[0] != "empty"]
+            inner = [x for x in rel if x[0].startswith("inner:") and x[0] != "inner:self"]
+            empties = [x for x in rel if x[0] == "empty"]
+            thorough = ctx.tier != "quick"
+            pick = lambda xs, k: rng.sample(xs, min(k, len(xs)))
+            groups = [(["doc"], pick(same_frag, 2) + pick(others, 1), 5 if thorough else 3)]
+            if inner and (thorough or rng.random() < 0.5):
+                groups.append(([x for x in rel if x[0] == "inner:self"], pick(inner, 2), 3 if thorough else 2))
+            if len(empties) >= 2:
+                groups.append(([], empties, 1))
+            ctx.count("related_families")
+            for head, chosen, npos in groups:
+                group = [R0 if x == "doc" else Root(info, x[1], x[0]) for x in head] + [Root(info, n, label) for label, n in chosen]
+                if len(group) < 2:
+                    continue
+                for r in group[1:] if head else group:
+                    ctx.count("related_root:" + r.label)
+                base = group[0].aligned
+                first = []
+                for p in rng.sample(base, min(len(base), npos)):
+                    order = group[:]
+                    rng.shuffle(order)
+                    first += [(r, p) for r in order if p <= r.size and p in r.aligned]
+                again = rng.sample(first, len(first) // 3)
+                before = None
+                for r, p in first + again:
+                    check_pos(r, p, rng.choice(r.aligned), related=before or "-")
+                    before = r.label
+                    ctx.count("related_queries")
+                for r in group[1:]:
+                    if r.size == 0:
+                        continue
+                    check_whole(r)
+                    f, t = sorted((rng.choice(r.aligned), rng.choice(r.aligned)))
+                    check_range(r, f, t)
+                    ctx.count("related_range_queries")
+
+        for _ in range(ctx.budget(3, 8)):
+            if ctx.time_left() < 0:
+                break
+            d = gen.gen_doc(rng, schema, budget=rng.choice([6, 12, 20]))
+            if rng.random() < 0.4:
+                d = gen.gen_marky_doc(rng, schema) or d
+            R = Root(info, d)
+            toks, size = R.toks, R.size
+            # the Fragment-object accessors on the content of this document's nodes (negative indices, both roundings of
+            # find_index, positions outside, a wrong stored size)
+            c02_frag.run_accessors(ctx, info, [d], reqs, metas)
+            for pos in R.aligned:
+                check_pos(R, pos, rng.choice(R.aligned))
+            check_whole(R)
             # text_content of a text node is its text; positions just outside the document do not resolve (ValueError, never
             # anything else); block_range() with no argument is block_range(self), and its two arguments may come in either order
             tn = next((n for n in [d.first_child.first_child if d.child_count and not d.first_child.is_leaf else None] if n is not None and n.is_text), None)
@@ -196,8 +530,9 @@ def run(ctx):
                 if stb != "valueError":
                     ctx.violation("resolve-outside", f"resolving position {bad_pos} of a document of size {size} did not raise a ValueError: {stb} {str(rb)[:80]}",
                                   {"schema": info.name, "doc": d.to_json(), "pos": bad_pos})
-            if aligned:
-                pa, pb = rng.choice(sorted(aligned)), rng.choice(sorted(aligned))
+            al = R.aligned
+            if al:
+                pa, pb = rng.choice(al), rng.choice(al)
                 def brs():
                     ra, rb_ = d.resolve(pa), d.resolve(pb)
                     enc = lambda x: None if x is None else [x.depth, x.start, x.end]
@@ -208,142 +543,18 @@ def run(ctx):
                     ctx.violation("block_range", "block_range() is not block_range(self), or block_range depends on the order of its two positions",
                                   {"schema": info.name, "doc": d.to_json(), "from": pa, "to": pb, "got": str(q)[:300]})
             # ---- ranges: nodes_between / text_between / range_has_mark
-            al = sorted(aligned)
-            for _ in range(ctx.budget(25, 80)):
+            for _ in range(ctx.budget(22, 72)):
                 f, t = sorted((rng.choice(al), rng.choice(al)))
                 if rng.random() < 0.15:
                     t = f
-                replay = {"schema": info.name, "doc": d.to_json(), "from": f, "to": t}
-                ctx.case(["between", info.name, d.to_json(), f, t], nontrivial=f < t)
-
-                def nb():
-                    acc = []
-                    d.nodes_between(f, t, lambda n, p, par, i: acc.append([n.node_size, p, i]) or True)
-                    return acc
-                st, vis = outcome(nb)
-                st2, txt = outcome(lambda: d.text_between(f, t))
-                if st != "ok" or st2 != "ok":
-                    ctx.violation("between-raises", f"nodes_between/text_between raised {vis if st != 'ok' else txt}", replay)
-                    continue
-                exp_txt = from_units([x[1] for x in toks[f:t] if x[0] == "u"])
-                if txt != exp_txt:
-                    ctx.violation("text_between", "text_between does not return the text units inside the range",
-                                  dict(replay, got=txt, expected=exp_txt))
-                # block range of the two positions, from the token picture: the deepest depth, starting at the depth of
-                # `from` (one less when its parent holds inline content or the two positions coincide), at which `to` still
-                # lies inside from's ancestor; the range runs from before from's child at that depth to after to's
-                anc_f, anc_t = ancestors_from_tokens(toks, f), ancestors_from_tokens(toks, t)
-
-                def parent_inline(anc_):
-                    ty = schema.nodes[toks[anc_[-1]][1]] if anc_ else d.type
-                    return ty.inline_content
-                d0 = len(anc_f) - (1 if parent_inline(anc_f) or f == t else 0)
-                exp_br = None
-                for dd in range(d0, -1, -1):
-                    end_d = size if dd == 0 else match_close(toks, anc_f[dd - 1])
-                    if t <= end_d:
-                        exp_br = [dd, f if dd == len(anc_f) else anc_f[dd], t if dd == len(anc_t) else match_close(toks, anc_t[dd]) + 1]
-                        break
-
-                def br():
-                    x = d.resolve(f).block_range(d.resolve(t))
-                    return None if x is None else [x.depth, x.start, x.end]
-                st5, got_br = outcome(br)
-                ctx.count("block_range_calls")
-                if st5 != "ok" or got_br != exp_br:
-                    ctx.violation("block_range", "block_range disagrees with the token picture of the two positions",
-                                  dict(replay, got=got_br if st5 == "ok" else str(got_br), expected=exp_br))
-                if st5 == "ok":
-                    reqs.append({"op": "blockRange", "s": info.lean_id, "doc": dj, "from": f, "to": t})
-                    metas.append(("blockRange", replay, got_br))
-                if st5 == "ok" and got_br is not None:
-                    # the NodeRange's own accessors: start / end / start_index / end_index / parent, against the model
-                    # (PM/ResolveExtra.lean nodeRangeInfo) and against the token picture (start_index = number of whole
-                    # children of the ancestor before `start`, end_index likewise for `end`)
-                    def nr():
-                        x = d.resolve(f).block_range(d.resolve(t))
-                        return [x.start, x.end, x.start_index, x.end_index, x.parent.child_count]
-                    st6, got_nr = outcome(nr)
-                    ctx.count("node_range_calls")
-                    if st6 != "ok":
-                        ctx.violation("node_range-raises", f"a NodeRange accessor raised {got_nr}", replay)
-                    else:
-                        reqs.append({"op": "nodeRange", "doc": dj, "from": f, "to": t, "depth": got_br[0]})
-                        metas.append(("nodeRange", replay, got_nr))
-                        dd = got_br[0]
-                        if dd > len(anc_f):
-                            continue   # a depth the token picture does not have: reported as block_range above
-                        lo = 0 if dd == 0 else anc_f[dd - 1] + 1
-                        def whole_children_before(p):
-                            n, q = 0, lo
-                            while q < p:
-                                q = (match_close(toks, q) + 1) if toks[q][0] == "op" else q + 1
-                                if toks[q - 1][0] == "u":
-                                    # a run of text units with equal marks is one child
-                                    while q < p and toks[q][0] == "u" and toks[q][2] == toks[q - 1][2]:
-                                        q += 1
-                                n += 1
-                            return n if q == p else None
-                        e_si, e_ei = whole_children_before(got_br[1]), whole_children_before(got_br[2])
-                        if got_nr[:2] != got_br[1:] or (e_si is not None and got_nr[2] != e_si) or (e_ei is not None and got_nr[3] != e_ei):
-                            ctx.violation("node_range", "NodeRange start/end/start_index/end_index disagree with the token picture",
-                                          dict(replay, got=got_nr, expected=[got_br[1], got_br[2], e_si, e_ei]))
-                # marks_across: the marks of the node after `from` that continue across to `to` (non-inclusive marks only
-                # when the node after `to` carries them too)
-                def mac():
-                    x = d.resolve(f).marks_across(d.resolve(t))
-                    return None if x is None else [[m.type.name, m.attrs] for m in x]
-                st7, got_ma = outcome(mac)
-                ctx.count("marks_across_calls")
-                if st7 != "ok":
-                    ctx.violation("marks_across-raises", f"marks_across raised {got_ma}", replay)
-                else:
-                    reqs.append({"op": "marksAcross", "s": info.lean_id, "doc": dj, "from": f, "to": t})
-                    metas.append(("marksAcross", replay, None if got_ma is None else info.marks(d.resolve(f).marks_across(d.resolve(t)))))
-                    exp_ma = expected_marks_across(schema, d, toks, f, t, anc_f, anc_t, size)
-                    if exp_ma != "skip" and (None if got_ma is None else [m[0] for m in got_ma]) != exp_ma:
-                        ctx.count("marks_across:checked")
-                        ctx.violation("marks_across", "marks_across disagrees with the documented rule read off the token picture",
-                                      dict(replay, got=got_ma, expected=exp_ma))
-                    elif exp_ma != "skip":
-                        ctx.count("marks_across:checked")
-                # separators and leaf text (string and callable forms)
-                for sep, lt_impl, lt_ref in (("\n", "", ""), ("|", "*", "*"), ("\n\n", lambda n: "" if n.type.name.startswith("h") else "[" + n.type.name + "]",
-                                                                              lambda ty: "" if ty.startswith("h") else "[" + ty + "]"), ("", "#", "#")):
-                    st4, txt2 = outcome(lambda: d.text_between(f, t, sep, lt_impl))
-                    exp2 = ref_text_between(schema, d.to_json().get("content"), f, t, sep, lt_ref)
-                    ctx.count("text_between_sep_calls")
-                    if st4 == "ok" and isinstance(lt_impl, str):
-                        from ..codec import units as _units
-                        reqs.append({"op": "textBetweenSep", "s": info.lean_id, "doc": dj, "from": f, "to": t,
-                                     "sep": _units(sep), "leaf": _units(lt_impl)})
-                        metas.append(("textBetweenSep", dict(replay, separator=sep, leaf_text=lt_impl), _units(txt2)))
-                    if st4 != "ok" or txt2 != exp2:
-                        ctx.violation("text_between-separators", "text_between with a block separator / leaf text does not give the documented text",
-                                      dict(replay, separator=sep, leaf_text=lt_ref if isinstance(lt_ref, str) else "[type name], empty for h*",
-                                           got=txt2 if st4 == "ok" else str(txt2), expected=exp2))
-                        break
-                # visited nodes: exactly those whose token interval meets (from, to) [start < to and end > from], in document order
-                exp_vis = expected_visits(toks, f, t)
-                if [v[1] for v in vis] != exp_vis:
-                    ctx.violation("nodes_between", "nodes_between visits other nodes/positions than the token picture says",
-                                  dict(replay, got=[v[1] for v in vis], expected=exp_vis))
-                from ..codec import units
-                reqs.append({"op": "nodesBetween", "doc": dj, "from": f, "to": t})
-                metas.append(("nodesBetween", replay, [vis, units(txt)]))
-                m = gen.gen_mark(rng, schema)
-                if m is not None:
-                    st3, has = outcome(lambda: d.range_has_mark(f, t, m))
-                    if st3 == "ok":
-                        exp_has = f < t and any(mark_in(m, info, toks[p]) for p in exp_vis)
-                        if bool(has) != exp_has:
-                            ctx.violation("range_has_mark", "range_has_mark disagrees with the marks of the nodes in the range", replay)
-                        reqs.append({"op": "rangeHasMark", "doc": dj, "from": f, "to": t, "mark": info.mark(m)})
-                        metas.append(("rangeHasMark", replay, bool(has)))
+                check_range(R, f, t)
+            # ---- related nodes queried alternately
+            related_queries(R)
     flush()
     return ctx.finish(
         rule="a case is (schema, document, position[, second position]) over every pair-aligned position of each "
-             "generated document, or a random range for the traversal interfaces; distinct by content")
+             "generated document, or a random range for the traversal interfaces, or a position of a node related to the "
+             "document (same content object, shared children, empty nodes) queried in alternation with it; distinct by content")
 
 
 def schema_mark_name(info, m):
